@@ -17,6 +17,7 @@ RULE += " One order in ten is built with the optional Order(commission=...) argu
 RULE += " Two directed scripts per case: an in-hours update that fills one order and then fails on an order for an unpriced asset (documented ValueError), optionally a closed-hours update, then a fill of the same asset at a new quote - priced, charged and stamped at its own update. The commission implied by each fill's ledger entry (debit - price x quantity; proceeds - credit) is compared with the fee model as well."
 RULE += ' Half of the symmetric pairs build the broker with positional arguments in the documented order; a third run the pair once, then revise commission_pct/tax_pct on the same fee-model object and run the same trade again.'
 RULE += ' 12% of the symmetric pairs have a consideration 3-4.9 billionths below n + 0.5 for n in {0, 1, 2} (unambiguously rounds down).'
+RULE += ' 30% of the symmetric pairs run on a broker built with the default fee model and given its PercentFeeModel afterwards (broker.fee_model = ...).'
 ASSUMPTIONS = [
     'the quote book is the harness\'s own data handler (the statement quantifies over bid/ask pairs with bid != ask, '
     'which the CSV data source cannot produce)',
